@@ -10,7 +10,7 @@ EXTENDS C04, Lru
 
 \* ----------------------------------------------------------------- reference hostname helpers
 RefNormHost(labels, amp) == LET a == StripSubdomains(labels, amp) IN IF amp THEN StripAmpDash(a) ELSE a
-RefFpHost(labels, ss) == LET a == StripLang(RefNormHost(labels, TRUE)) IN IF ss /\ Len(a) > 1 THEN SubSeq(a, 1, Len(a) - 1) ELSE a
+RefFpHost(labels, ss) == LET a == StripLang(RefNormHost(labels, TRUE)) IN IF ss THEN StripSuffixLabels(a) ELSE a
 HostLabelsOfUrl(s) == HostLabels(NetParts(Split(IF HasProtocol(s) THEN s ELSE <<47, 47>> \o s).netloc).host)
 InputHostLabels(s) == LET p == UpperEscapes(Clean(s)) IN HostLabels(NetParts(Split(IF HasProtocol(p) THEN p ELSE HTTP \o <<58, 47, 47>> \o p).netloc).host)
 HelpersAgree ==
